@@ -384,6 +384,11 @@ class Flattener:
                         ast.fix_missing_locations(n)
                     # the substituted body may itself call helpers
                     return self.stmts(res, local_defs) if self.counter < 60 else res
+        hoisted = self.hoist_calls(s, local_defs)
+        if hoisted is not None:
+            pre, s2 = hoisted
+            self.changed = True
+            return self.stmts(pre, local_defs) + self.stmt(s2, local_defs)
         if isinstance(s, ast.FunctionDef):
             # a nested def may itself call sibling nested defs / private helpers
             inner = {k: v for k, v in local_defs.items() if k != s.name}
@@ -399,6 +404,87 @@ class Flattener:
             for h in s.handlers:
                 h.body = self.stmts(h.body, local_defs)
         return [s]
+
+    PURE_CALLEES = {"len", "isinstance", "float", "int", "bool", "str", "abs", "min", "max", "list", "tuple", "sorted", "range",
+                    "hasattr", "getattr", "type", "sum", "any", "all", "zip", "enumerate", "dict", "set"}
+
+    def hoist_calls(self, s, local_defs):
+        """`x = h(a) - h(b)` with a helper h of several statements -> `_c1 = h(a); _c2 = h(b); x = _c1 - _c2` (the new statements
+        are then substituted at statement level).  Only for calls that are evaluated unconditionally (not behind and / or / a
+        conditional expression / inside a comprehension or lambda) and only if the rest of the expression calls nothing but
+        numpy / pandas / builtin functions, so that evaluating the helpers first cannot be observed."""
+        if isinstance(s, (ast.Assign, ast.AugAssign, ast.AnnAssign, ast.Return, ast.Expr)):
+            root = s.value
+        elif isinstance(s, ast.If):
+            root = s.test
+        else:
+            return None
+        if root is None or (isinstance(root, ast.Call) and not isinstance(s, (ast.If, ast.AugAssign, ast.AnnAssign))
+                            and self.helper_of(root, local_defs) is not None):
+            return None             # the whole right-hand side is the call: statement level handles it
+        found, other_calls = [], []
+
+        def walk(n, guarded):
+            if isinstance(n, (ast.Lambda, ast.ListComp, ast.SetComp, ast.DictComp, ast.GeneratorExp)):
+                for c in ast.walk(n):
+                    if isinstance(c, ast.Call):
+                        other_calls.append(c)
+                return
+            if isinstance(n, ast.BoolOp):
+                walk(n.values[0], guarded)
+                for v in n.values[1:]:
+                    walk(v, True)
+                return
+            if isinstance(n, ast.IfExp):
+                walk(n.test, guarded)
+                walk(n.body, True)
+                walk(n.orelse, True)
+                return
+            for c in ast.iter_child_nodes(n):
+                walk(c, guarded)
+            if isinstance(n, ast.Call):
+                g = self.helper_of(n, local_defs)
+                if g is not None and not guarded and _exprify(_strip_doc(g.body)) is None:
+                    found.append(n)
+                else:
+                    other_calls.append(n)
+        walk(root, False)
+        if not found:
+            return None
+        for c in other_calls:
+            if self.helper_of(c, local_defs) is not None:
+                continue            # an expression-level helper: substituted in place afterwards
+            f = c.func
+            base = f
+            while isinstance(base, ast.Attribute):
+                base = base.value
+            if isinstance(f, ast.Name) and f.id in self.PURE_CALLEES:
+                continue
+            if isinstance(f, ast.Attribute) and isinstance(base, ast.Name) and base.id in ("np", "numpy", "pd", "pandas", "math"):
+                continue
+            if isinstance(f, ast.Attribute) and f.attr in ("astype", "copy", "sum", "any", "all", "get", "keys", "values", "items", "tolist"):
+                continue
+            return None
+        pre, repl = [], {}
+        for c in found:
+            self.counter += 1
+            nm = "_c%d%s_" % (self.counter, "" if self.depth == 0 else "d%d" % self.depth)
+            pre.append(ast.copy_location(ast.Assign(targets=[ast.Name(id=nm, ctx=ast.Store())], value=c, lineno=s.lineno), s))
+            repl[id(c)] = nm
+
+        class R(ast.NodeTransformer):
+            def visit_Call(self, node):
+                if id(node) in repl:
+                    return ast.copy_location(ast.Name(id=repl[id(node)], ctx=ast.Load()), node)
+                return self.generic_visit(node)
+        new_root = R().visit(root)
+        if isinstance(s, ast.If):
+            s.test = new_root
+        else:
+            s.value = new_root
+        for n in pre + [s]:
+            ast.fix_missing_locations(n)
+        return pre, s
 
     def expr_level(self, s, local_defs):
         outer = self
